@@ -132,8 +132,18 @@ pub fn gen_plan(hseed: u64) -> Plan {
     let mut r = Rng::new(hseed);
     let workers = r.pick(&[1usize, 2, 4]);
     let graceful = r.chance(72);
-    let has_blocker = r.chance(55);
-    let timeout_ms = graceful.then(|| if has_blocker { r.pick(&[550u64, 600, 650, 700]) } else { r.pick(&[300u64, 400, 500, 600, 700]) });
+    // a worker that stays unresponsive for much longer than the timeout: the coordinator has to give up on it
+    let stuck = graceful && r.chance(8);
+    let has_blocker = !stuck && r.chance(55);
+    let timeout_ms = graceful.then(|| {
+        if stuck {
+            r.pick(&[300u64, 400])
+        } else if has_blocker {
+            r.pick(&[550u64, 600, 650, 700])
+        } else {
+            r.pick(&[300u64, 400, 500, 600, 700])
+        }
+    });
     let call = r.range(160, 340);
     let size = match r.below(10) {
         0..=2 => r.range(1, 6),
@@ -169,6 +179,12 @@ pub fn gen_plan(hseed: u64) -> Plan {
             let close = r.chance(50);
             push(&mut conns, "blocker", false, wb - lead, vec![(wb, HK::Block(b), close, None)]);
         }
+    }
+    if stuck {
+        let b = 3 * timeout_ms.unwrap_or(0) + 600 + r.range(0, 200);
+        let at = call - r.range(20, 60);
+        stall_from = Some(at);
+        push(&mut conns, "stuck_worker_blocker", false, at - r.range(0, 20), vec![(at, HK::Block(b), true, None)]);
     }
     // what a short in-flight handler may cost, so that "stall + latency" stays well inside the timeout
     let short_max = match timeout_ms {
